@@ -158,7 +158,8 @@ Proof.
     - left. unfold a_start. destruct (st_a s); eauto.
     - left. now apply a_remove_ok.
     - destruct (a_push_cases cf s); auto.
-    - left. now apply a_add_ok. }
+    - left. now apply a_add_ok.
+    - left. unfold g_fail. destruct (st_g s); eauto. }
   destruct H as [[s' H]|H]; auto. left. exists s'. split; auto. eapply inv_step; eauto.
 Qed.
 
@@ -203,6 +204,8 @@ Proof.
     + unfold a_add in H. rewrite Ea, Eq in H. inversion H; subst. cbn in *. auto.
     + destruct (a_add_spec _ _ _ _ _ I Ea Eq) as (_ & _ & _ & E). rewrite E in H.
       inversion H; subst. cbn in *. lia.
+  - unfold g_fail in H. destruct (st_g s) eqn:Eg; inversion H; subst; rewrite ?Eg; auto.
+    destruct (prebuild cf && built); cbn; rewrite ?Eg; auto.
 Qed.
 
 Lemma qinv_init cf : QInv cf (init cf).
@@ -334,6 +337,8 @@ Proof.
     + unfold a_add in H. rewrite Ea, Eq in H. inversion H; subst. repeat split; cbn; auto.
     + destruct (a_add_spec _ _ _ _ _ I Ea Eq) as (_ & _ & _ & E). rewrite E in H.
       inversion H; subst. repeat split; cbn; auto.
+  - unfold g_fail in H. destruct (st_g s); inversion H; subst; try apply mono_refl.
+    destruct (prebuild cf && built); repeat split; cbn; auto.
 Qed.
 
 Lemma mono_trans a b c : mono a b -> mono b c -> mono a c.
